@@ -141,7 +141,7 @@ def run(ctx):
     ctx.rule("R09.i", "rx cache model: rx._resolve, the rx._obj property, _invalidate_current and _invalidate_obj interpreted abstractly on a three-node expression (root, op1, op2) under every "
                       "history of up to 3 (thorough: 4) steps of read leaf / read middle node / set the input to A, B or a bad value / set an operation argument to P, Q or a bad value, followed by a read: the read gives op2(op1(current input, current argument)), "
                       "raises for the bad input, and recovers", floor=1)
-    ctx.rule("R09.h", "flush model (shared with R04.h): every watcher queued in a batch -- the cache invalidators of an expression are such watchers -- runs at the flush with the last event of its "
+    ctx.rule("R09.r", "flush model (shared with R04.h): every watcher queued in a batch -- the cache invalidators of an expression are such watchers -- runs at the flush with the last event of its "
                       "parameter, also when the parameter was set away and back inside the batch (an expression read in between cached the intermediate value; only the flush invalidates it again)", floor=1)
     ctx.not_decided += ["that .rx.value equals the plain-Python result after arbitrary read/update histories (cache coherence) -- not statically decidable here and NOT claimed",
                         "the .rx helper namespace other than where (pipe, and_, ...); the values rx.watch delivers (only the callback structure is decided, R09.h)"]
@@ -378,4 +378,4 @@ def run(ctx):
     from checks import update_model
     update_model.report(ctx, "C09", "R09.u")
     from checks.shared import flush_model
-    flush_model(ctx, "R09.h")
+    flush_model(ctx, "R09.r")
